@@ -27,6 +27,8 @@ var zzC10Programs = []string{
 	/* 9 */ `<template :greeting="'hello'" :cnt="n"></template><b>{{ greeting }}{{ cnt }}</b>`,
 	/* 10 */ `<i>[{{ greeting | default("none") }}][{{ cnt | default("none") }}]</i>`,
 	/* 11 */ `<p title="pre {{ t }}">{{ t | upper | lower }}</p>`,
+	/* 12 */ `<p>{{ keys['first name'] }}|{{ keys["a b"] }}</p>`,
+	/* 13 */ `<p>{{ keys['firstname'] }}|{{ keys["ab"] }}|{{ keys.ab }}</p>`,
 }
 
 func zzC10FS() *zzFS {
@@ -37,12 +39,14 @@ func zzC10FS() *zzFS {
 	})
 }
 
+var zzC10Keys = map[string]any{"first name": "SPACED", "firstname": "COMPACT", "a b": "S2", "ab": "C2"}
+
 func zzC10Data(variant int) map[string]any {
 	switch variant {
 	case 1:
-		return map[string]any{"t": "T2", "a": "A2", "b": 2.0, "c": "cc", "no": false, "items": []string{"y"}, "n": 1.0}
+		return map[string]any{"t": "T2", "a": "A2", "b": 2.0, "c": "cc", "no": false, "items": []string{"y"}, "n": 1.0, "keys": zzC10Keys}
 	}
-	return map[string]any{"t": "T", "a": "A", "b": 7, "c": "dyn", "no": false, "items": []string{"x", "y"}, "n": 1}
+	return map[string]any{"t": "T", "a": "A", "b": 7, "c": "dyn", "no": false, "items": []string{"x", "y"}, "n": 1, "keys": zzC10Keys}
 }
 
 // VerifC10_MapOrder: inside the listed functions every range over a map is
@@ -79,7 +83,7 @@ func VerifC10_History() {
 		}
 		render = func(tpl Template, body string, data map[string]any) (string, error) {
 			t := tpl.New()
-			for _, k := range []string{"t", "a", "b", "c", "no", "items", "n"} {
+			for _, k := range []string{"t", "a", "b", "c", "no", "items", "n", "keys"} {
 				t = t.Assign(k, data[k])
 			}
 			w := &zzWriter{limit: 1 << 20}
@@ -98,6 +102,11 @@ func VerifC10_History() {
 		zzNote("fresh", fresh)
 		zzAssert((err == nil) == (ferr == nil), "C10.history.error-differs-from-fresh-engine")
 		zzAssert(out == fresh, "C10.history.output-differs-from-fresh-engine")
+		// process-wide caches are shared by the fresh engine too: these
+		// programs also have an absolute expectation
+		if want, ok := map[int]string{12: "SPACED|S2", 13: "COMPACT|C2|C2"}[k]; ok && err == nil {
+			zzAssert(strings.Contains(out, want), "C10.history.output-depends-on-earlier-renders")
+		}
 	}
 	if nofs {
 		return
